@@ -41,8 +41,14 @@ def base_case(rng, i):
         cfg["helpers"] = cfg["helpers"] + [{"name": "helperMissing", "kind": "mark", "tag": "HM"}, {"name": "blockHelperMissing", "kind": "mark", "tag": "BHM"}]
         main += rng.pick(["a{{nope}}", "{{nope}}|{{nope2}}z", "{{#nob 1}}body{{/nob}}{{nope}}", "{{#each ml}}{{/each}}{{nohelper 1 2}}|{{nope}}",
                           "\n  {{> p0}}\n{{nope}}{{{nope3}}}"])
+    lay = None
+    if rng.chance(0.4):
+        # a partial called in BLOCK form whose template renders the caller's block ({{> @partial-block}}), also nested and twice: the
+        # write calls made while that block is rendered are write calls of the render like any other
+        lay = rng.pick(["<h>{{> @partial-block}}</h>", "{{> @partial-block}}|{{> @partial-block}}", "[{{#each ml}}{{/each}}{{> @partial-block}}]\n"])
+        main += rng.pick(["a{{#> lay}}body {{ml}}{{/lay}}z", "{{#> lay}}{{#> lay}}in{{/lay}}{{/lay}}", "\n  {{#> lay}}\n  b1\n  {{{ml}}}\n  {{/lay}}\nq"])
     named = rng.chance(0.5)
-    return cfg, [("p0", p0), ("main", main)], data, named
+    return cfg, [("p0", p0)] + ([("lay", lay)] if lay else []) + [("main", main)], data, named
 
 
 def generate(rng, n, tier="quick"):
